@@ -43,6 +43,11 @@ fn odd_names() -> Vec<&'static str> {
     vec!["a.b", "a-b", "x.y-z", "_lead", "\u{e9}\u{fc}", "\u{dc}n\u{ef}", "a1.2b", "A", "a", "_", "__x", "x__y", "Ab.Cd-Ef_gh"]
 }
 
+/// names that the generated code itself uses unqualified (std prelude, imported items, derive names)
+fn names_used_by_generated_code() -> Vec<&'static str> {
+    vec!["Option", "Vec", "String", "Rc", "Box", "Result", "Default", "Debug", "Some", "None", "Ok", "Err", "Clone", "Send", "Sync", "Sized", "Drop", "From", "Into", "Iterator", "ToString", "Write", "Error", "Restrictions", "CheckRestrictions", "YaSerialize", "YaDeserialize", "Client", "Url"]
+}
+
 pub fn state_for_name(name: &str, position: &str) -> Option<SchemaSet> {
     match position {
         "element" => {
@@ -70,7 +75,7 @@ pub fn state_for_name(name: &str, position: &str) -> Option<SchemaSet> {
         "global-element" => {
             let mut s = s1();
             s.files[0].comps.push(anon_element(name, vec![el("Inner", TypeRef::b("string"))]));
-            holder_mut(&mut s).seq = Some(Seq::of(vec![Particle::Ref(ElemRef { target: QName::new(NS_A, name), min: 1, max: Max::N(1) })]));
+            holder_mut(&mut s).seq = Some(Seq::of(vec![Particle::Ref(ElemRef { target: QName::new(NS_A, name), min: 1, max: Max::N(1), xmlns: vec![] })]));
             Some(s)
         }
         "operation" => Some(wsdl_with(&[OpSpec { in_headers: 1, ..OpSpec::simple(name) }], "ThingService", "http://127.0.0.1:9/thing")),
@@ -185,6 +190,15 @@ fn cases(tier: &str) -> Vec<Case14> {
             }
         }
     }
+    for n in names_used_by_generated_code() {
+        for pos in ["complexType", "simpleType", "global-element"] {
+            if let Some(mut set) = state_for_name(n, pos) {
+                // members of every wrapper next to it, so that the generated code needs the std items
+                holder_mut(&mut set).seq.get_or_insert_with(|| Seq::of(vec![])).items.extend([el_occ("OptText", TypeRef::b("string"), 0, Max::N(1)), el_occ("ManyNumbers", TypeRef::b("int"), 0, Max::Unbounded)]);
+                out.push(Case14 { state: State { label: format!("name `{n}` (used by the generated code itself) as {pos} name"), depth: 1, set }, kind: "std-name", what: n.to_string(), where_: pos.to_string(), payload: None });
+            }
+        }
+    }
     for (pl, p) in payloads() {
         for sink in SINKS {
             if let Some(set) = state_for_payload(&p, sink) {
@@ -275,7 +289,7 @@ pub fn check(tier: &str) -> i32 {
                     clean += 1;
                 }
                 // compile: every keyword / odd-name case in the thorough tier, a rotating subset in quick; all payload cases
-                let compile = c.kind == "payload" || tier == "thorough" || k % 3 == 0;
+                let compile = c.kind == "payload" || c.kind == "std-name" || tier == "thorough" || k % 3 == 0;
                 if compile {
                     let mut driver = None;
                     if let (Some(p), "enumeration-value") = (&c.payload, c.where_.as_str()) {
